@@ -140,6 +140,11 @@ def _wide_programs(tier: str):
         if k <= 6:
             for pair in ((0, 1), (0, k - 1), (1, k - 2)):
                 yield {"wide": k, "tasks": list(pair), "how": "create"}
+    for opts in ("trace", "logger"):
+        for k in (2, 3, 4):
+            yield {"wide": k, "tasks": [], "how": "create", "opts": opts}
+            yield {"wide": k, "tasks": [0], "how": "create", "opts": opts}
+            yield {"wide": k, "tasks": [k - 1], "how": "spawn", "opts": opts}
     for perm in itertools.permutations(range(3)):
         yield {"wide": 3, "tasks": [], "how": "create", "prepared": list(perm)}
     for k in (4, 5, 7):
@@ -182,7 +187,14 @@ def _wide(program, ch: Chooser) -> Result:  # noqa: C901, PLR0915
         vtime.advance(0.125)  # time passes between any two steps (measured times / stamps differ)
         created[name] = len(events)
         events.append(("created", name))
-        return ctx.scope(name, completion=make_cb(name, False))
+        kw = {}
+        if program.get("opts") == "trace" and i % 2 == 0:
+            kw["trace_id"] = f"own-trace-{i}"  # an own trace id: still a nested scope of the root
+        elif program.get("opts") == "logger" and i % 2 == 0:
+            import logging as _logging
+
+            kw["logger"] = _logging.getLogger(f"own.logger.{i}")
+        return ctx.scope(name, completion=make_cb(name, False), **kw)
 
     async def child(i: int, cm=None) -> None:
         name = f"c{i}"
